@@ -801,6 +801,8 @@ func (g *generator) convertFragmentSpread(
 		return nil, nil
 	}
 
+	g.verifTypeMapEvent("peek", fragmentSpread.Name,
+		fragmentSpread.Definition.TypeCondition, fragmentSpread.Definition.SelectionSet)
 	typ, ok := g.typeMap[fragmentSpread.Name]
 	if !ok {
 		// If we haven't yet, convert the fragment itself.  Note that fragments
